@@ -15,6 +15,7 @@ import (
 	"google.golang.org/grpc/internal/transport"
 	"google.golang.org/grpc/internal/verif/vk"
 	"google.golang.org/grpc/internal/verif/vsched"
+	"google.golang.org/grpc/internal/verif/vsync"
 	"google.golang.org/grpc/status"
 )
 
@@ -76,6 +77,12 @@ func c32Scenario(name string, script []string, failfast []bool, withClose bool, 
 		notReadyAC := &addrConn{state: connectivity.Connecting}
 		readySC := &acBalancerWrapper{ac: readyAC}
 		notReadySC := &acBalancerWrapper{ac: notReadyAC}
+		// ccMu plays the role of ClientConn.mu: the channel publishes a picker
+		// only while it is not closed (balancer wrapper's UpdateState checks
+		// cc.conns == nil under cc.mu), and Close marks the channel closed under
+		// the same lock before closing the picker wrapper.
+		var ccMu vsync.Mutex
+		closed := false
 		x.Go("lb", func() {
 			for i, kind := range script {
 				p := &c32Picker{gen: i + 1, kind: kind, led: led}
@@ -85,6 +92,11 @@ func c32Scenario(name string, script []string, failfast []bool, withClose bool, 
 				case "notready":
 					p.sc = notReadySC
 				}
+				ccMu.Lock()
+				if closed {
+					ccMu.Unlock()
+					return
+				}
 				led.mu.Lock()
 				led.pubBegun = i + 1
 				led.mu.Unlock()
@@ -92,6 +104,7 @@ func c32Scenario(name string, script []string, failfast []bool, withClose bool, 
 				led.mu.Lock()
 				led.curGen = i + 1
 				led.mu.Unlock()
+				ccMu.Unlock()
 			}
 		})
 		type res struct {
@@ -123,13 +136,14 @@ func c32Scenario(name string, script []string, failfast []bool, withClose bool, 
 				led.mu.Unlock()
 			})
 		}
-		closed := false
 		if withClose {
 			x.Go("close", func() {
 				vsched.Yield()
+				ccMu.Lock()
 				led.mu.Lock()
 				closed = true
 				led.mu.Unlock()
+				ccMu.Unlock()
 				pw.close()
 			})
 		}
@@ -191,6 +205,9 @@ func c32Scenario(name string, script []string, failfast []bool, withClose bool, 
 					last := 0
 					if len(gens) > 0 {
 						last = gens[len(gens)-1]
+					}
+					if de, ok := rs.err.(dropError); ok {
+						rs.err = de.error
 					}
 					justified := false
 					switch {
